@@ -184,8 +184,14 @@ def r2_determinism(repo, rep, f, ctx):
         t = norm(c.func)
         if isinstance(c.func, ast.Attribute) and c.func.attr in ('rvs',):
           n_draw += 1
-          rs = au.kwarg(c, 'random_state')
+          fctx_ = FuncCtx.of(fn)
+          at_ = fctx_.node_at(c)
+          cx_ = canon.of(repo).expr(fctx_.rd.expand(at_, c, keep=tuple(fn.params))[0]) if at_ is not None else c
+          rs = au.kwarg(cx_, 'random_state') if isinstance(cx_, ast.Call) else au.kwarg(c, 'random_state')
           ok = rs is not None and norm(rs) == 'random_state' and 'random_state' in fn.params
+          if not ok and isinstance(cx_, ast.Call) and (any(k.arg is None for k in cx_.keywords) or any(isinstance(a_, ast.Starred) for a_ in cx_.args)):
+            rep.undecided('R2/determinism', 'draw %s' % norm(c)[:40], 'the arguments of the draw are passed through an unresolved */** table', fn.loc(c))
+            continue
           rep.check(ok, 'R2/determinism', 'draw %s is seeded from the random_state parameter' % norm(c)[:40], fn.qualname, norm(c)[:100],
                     'the simulation draw `%s` is not seeded from the random_state argument: the report is not a function of the data and random_state' % norm(c)[:80], fn.loc(c))
         elif re.match(r'(np|numpy)\.random\.|random\.(random|sample|choice|gauss|uniform|shuffle|seed)', t):
